@@ -102,6 +102,23 @@ def design_checks(ctx):
         if expect is not None and r.violated != expect:
             raise core.Infra("SpatialIndexMC[%s] was expected to violate %s (got %s): the model lost its teeth" %
                              (name, expect, r.violated))
+    # round 5: the slab step of the box/ray test over IEEE extended values and signed zeros
+    for name, variant, invs, expect in (("slab-code", "swap", "RefInv ZeroSignInv", None),
+                                        ("slab-signpick-ref", "signPick", "RefInv", "RefInv"),
+                                        ("slab-signpick-zero", "signPick", "ZeroSignInv", "ZeroSignInv")):
+        d = ctx.scratch("mc-" + name)
+        with open(os.path.join(d, "Slab.cfg"), "w") as f:
+            f.write("CONSTANTS\n  Variant = \"%s\"\n  Coords = {0, 1, 2, 3, 4}\n  Lo = 1\n  Hi = 3\n  Ts = {0, 1, 3, 8}\n"
+                    "SPECIFICATION Spec\nINVARIANTS %s\nCHECK_DEADLOCK FALSE\n" % (variant, invs))
+        r = core.run_tlc(d, "SlabMC", "Slab.cfg", files=[(os.path.join(d, "Slab.cfg"), "Slab.cfg")], workers=2,
+                         timeout=600, heap="2g")
+        ctx.add_tlc(r)
+        summary[name] = {"states": r.distinct, "violated": r.violated}
+        if expect is None and r.rc != 0:
+            raise core.Infra("SlabMC[%s] violates %s: the model of the implemented slab test is wrong" % (name, r.violated))
+        if expect is not None and r.violated != expect:
+            raise core.Infra("SlabMC[%s] was expected to violate %s (got %s): the model lost its teeth" %
+                             (name, expect, r.violated))
     ctx.extra["design_model"] = summary
 
 
